@@ -34,6 +34,11 @@ def handle : List String → Option String
     let mt ← mtime.toInt?
     let i ← readIms ims
     pure (showResp (staticFile (unhexBytes file) (natList sched) (bool01 head) (optStr rng) i mt m))
+  | ["staticns", file, sched, head, rng, ims, mtimeNs, maxread] => do
+    let m ← maxread.toNat?
+    let mt ← mtimeNs.toInt?
+    let i ← readIms ims
+    pure (showResp (staticFileNs (unhexBytes file) (natList sched) (bool01 head) (optStr rng) i mt m))
   | ["timegm", y, mo, d, h, mi, s] => do
     let r := timegm (← y.toInt?) (← mo.toInt?) (← d.toInt?) (← h.toInt?) (← mi.toInt?) (← s.toInt?)
     pure (match r with | some t => s!"some {t}" | none => "none")
